@@ -26,7 +26,17 @@ def firstStr : Option Bool → String
 def spellOk (s : String) : Bool :=
   s.toList.all (fun ch => (ch ≥ 'a' && ch ≤ 'z') || (ch ≥ '0' && ch ≤ '9') || ch == '+')
 
+/-- the rewrites of the opening request the harness knows (go/harness/c04_inject.go, same list) -/
+def injections : List String :=
+  ["none", "ctl", "xff", "xfp", "xfpuc", "xfplist", "xfpwss", "fwd", "xfssl", "feh", "xurl", "xscheme", "xfport", "cfv", "tlsinfo",
+   "origin", "host443", "absurl", "abswss", "query", "subproto", "all"]
+
+def srvStr : Option Bool → String
+  | none => "none" | some true => "stls" | some false => "nostls"
+
 def parseFront (s : String) : Option Front :=
+  if s.startsWith "inj:" then (if injections.any (fun n => s == "inj:" ++ n) then some .inject else none) else
+  if s == "srvpw" then some .srvpw else
   if s == "pass" then some .pass else if s == "tlsdrop" then some .tlsdrop else if s == "loop" then some .loop
   else if s == "s200" || s == "s404" then some .status
   else match s.splitOn ":" with
@@ -43,13 +53,14 @@ def handle (toks : List String) : String :=
     if !spellOk sp then "bad-op" else
     match parseFront fr, bit? t, bit? a, bit? b, bit? c, bit? d with
     | some f, some stls, some scert, some must, some insecure, some ca =>
+      let srv := if f == .inject then " srv=" ++ srvStr (srvAdvert sp.toList scert) else ""
       match cellFront sp.toList f stls scert must insecure ca with
       | .badscheme => "badscheme"
       | .noserver => "noserver"
-      | .refused => "refused"
+      | .refused => "refused" ++ srv
       | .est t s echo clear first =>
         "est " ++ techStr t ++ " secure=" ++ b01 s ++ " echo=" ++ (if echo then "ok" else "fail") ++ " wire=" ++
-          (if clear then "clear" else "opaque") ++ " first=" ++ firstStr first ++ " hops=" ++ toString (hopsOf sp.toList f)
+          (if clear then "clear" else "opaque") ++ " first=" ++ firstStr first ++ " hops=" ++ toString (hopsOf sp.toList f) ++ srv
     | _, _, _, _, _, _ => "bad-op"
   | ["spellings"] =>
     -- the candidates of the harness (bases x {"", "+tls"}) are a superset of the regenerated switch, or this line differs
